@@ -5,11 +5,14 @@
    definition regenerated from the Go source (Gen/CNN.v, tie T).
 
    Executable definitions first, then lemmas that all three properties use. *)
-From Coq Require Import ZArith List Bool Lia.
+From Coq Require Import ZArith List Bool Lia Sorted.
 Import ListNotations.
 Open Scope Z_scope.
 
-Definition sample : Type := (Z * Z)%type.          (* (t, v) *)
+Notation sample := (Z * Z)%type (only parsing).          (* (t, v) *)
+
+(* raw samples: None = NaN (ordinary or stale marker) *)
+Notation rsample := (Z * option Z)%type (only parsing).
 
 Definition max_int64 : Z := 9223372036854775807.
 Definition min_int64 : Z := -9223372036854775808.
@@ -103,36 +106,45 @@ Definition float_batch (res : Z) (batch : list sample) : achunk :=
 
 (* ---- downsampleRawLoop ---- *)
 
-(* raw samples: None = NaN (ordinary or stale marker) *)
-Definition rsample : Type := (Z * option Z)%type.
 
 Definition keep_nonnan (l : list rsample) : list sample :=
   flat_map (fun s => match snd s with Some v => [(fst s, v)] | None => [] end) l.
 
-Fixpoint take_while_le (curW : Z) (l : list rsample) : nat :=
+(* `for ; j < len(data) && data[j].t <= curW; j++ {}`: (taken, rest) *)
+Fixpoint take_le (curW : Z) (l : list rsample) : list rsample * list rsample :=
   match l with
-  | [] => O
-  | s :: r => if fst s <=? curW then S (take_while_le curW r) else O
+  | [] => ([], [])
+  | s :: r =>
+      if fst s <=? curW then let '(a, b) := take_le curW r in (s :: a, b) else ([], l)
   end.
 
-(* fuel = len(data): every iteration consumes at least one sample *)
-Fixpoint raw_loop (fuel : nat) (res : Z) (batch_size : nat) (data : list rsample) : option (list achunk) :=
+(* j := min(batchSize, len(data)); curW := currentWindow(data[j-1].t, res); then the
+   extension loop.  Walks the list: n counts down from batchSize, lastt is the
+   timestamp of the sample taken last (data[j-1].t once n reaches 0 or the data
+   is exhausted).  batchSize >= 1 always (len/numChunks + 1). *)
+Fixpoint take_batch (res : Z) (n : nat) (lastt : Z) (l : list rsample) : list rsample * list rsample :=
+  match n, l with
+  | S n', s :: r => let '(a, b) := take_batch res n' (fst s) r in (s :: a, b)
+  | _, _ => take_le (cw lastt res) l
+  end.
+
+(* the batches cut by downsampleRawLoop (NaN already filtered, empty ones
+   skipped).  fuel = len(data): every iteration consumes at least one sample *)
+Fixpoint raw_batches (fuel : nat) (res : Z) (batch_size : nat) (data : list rsample) : option (list (list sample)) :=
   match data with
   | [] => Some []
   | _ :: _ =>
     match fuel with
     | O => None
     | S f =>
-      let j0 := Nat.min batch_size (length data) in
-      let curW := cw (fst (nth (j0 - 1) data (0, None))) res in
-      let j := (j0 + take_while_le curW (skipn j0 data))%nat in
-      let batch := keep_nonnan (firstn j data) in
-      match raw_loop f res batch_size (skipn j data) with
+      let '(taken, rest) := take_batch res batch_size 0 data in
+      let batch := keep_nonnan taken in
+      match raw_batches f res batch_size rest with
       | None => None
-      | Some rest =>
+      | Some more =>
           match batch with
-          | [] => Some rest
-          | _ :: _ => Some (float_batch res batch :: rest)
+          | [] => Some more
+          | _ :: _ => Some (batch :: more)
           end
       end
     end
@@ -141,9 +153,9 @@ Fixpoint raw_loop (fuel : nat) (res : Z) (batch_size : nat) (data : list rsample
 (* DownsampleRaw for float samples; num_chunks = targetChunkCount(...) is an
    input (its float64 heuristic only chooses the batch size) *)
 Definition downsample_raw (res : Z) (num_chunks : nat) (data : list rsample) : option (list achunk) :=
-  match data with
-  | [] => Some []
-  | _ => raw_loop (length data) res (length data / num_chunks + 1) data
+  match raw_batches (length data) res (length data / num_chunks + 1) data with
+  | Some bs => Some (map (float_batch res) bs)
+  | None => None
   end.
 
 End WithWindow.
@@ -242,7 +254,7 @@ Lemma db_gh_lockstep res lastT : forall data nextT a cur,
   Forall2 (fun o g => fst o = fst g /\ win_ok (snd o) (map snd (snd g))) out gout.
 Proof.
   induction data as [|[t v] r IH]; intros nextT a cur Hw; cbn [db_loop gh_loop].
-  - repeat split; [assumption|constructor].
+  - split; [reflexivity|split; [assumption|constructor]].
   - destruct (t >? nextT) eqn:E.
     + specialize (IH (Z.min (cw t res) lastT) (a_add (a_reset a) v) [(t, v)]).
       assert (W : win_ok (a_add (a_reset a) v) (map snd [(t, v)])).
@@ -250,13 +262,103 @@ Proof.
       specialize (IH W).
       destruct (db_loop cw res lastT r (Z.min (cw t res) lastT) (a_add (a_reset a) v)) as [out [nT a']].
       destruct (gh_loop res lastT r (Z.min (cw t res) lastT) [(t, v)]) as [gout [gT cur']].
-      destruct IH as (-> & Hw' & HF). repeat split; [assumption|].
+      destruct IH as (-> & Hw' & HF). split; [reflexivity|split; [assumption|]].
       destruct (nextT =? -1); cbn [app]; [assumption|].
       constructor; [split; [reflexivity|assumption]|assumption].
     + specialize (IH nextT (a_add a v) (cur ++ [(t, v)])).
       assert (W : win_ok (a_add a v) (map snd (cur ++ [(t, v)]))).
       { rewrite map_app. apply win_ok_add, Hw. }
       exact (IH W).
+Qed.
+
+
+(* ---- what the ghost windows are, for time-ordered non-negative data ---- *)
+
+Variable res lastT : Z.
+Hypothesis res_pos : 0 < res.
+Hypothesis cw_ge : forall t, 0 <= t -> t <= cw t res.
+Hypothesis cw_same : forall t t', 0 <= t -> t <= t' -> t' <= cw t res -> cw t' res = cw t res.
+
+(* effective window end of a sample inside a batch whose last timestamp is lastT *)
+Definition ew (t : Z) : Z := Z.min (cw t res) lastT.
+
+Definition win_of (p : Z * list sample) : Prop :=
+  snd p <> [] /\ Forall (fun s => ew (fst s) = fst p) (snd p).
+
+Lemma gh_loop_spec : forall data nextT cur,
+  StronglySorted Z.le (map fst data) ->
+  Forall (fun s => 0 <= fst s <= lastT) data ->
+  (nextT = -1 /\ cur = [] \/
+   win_of (nextT, cur) /\ exists t0, 0 <= t0 /\ nextT = ew t0 /\ Forall (fun s => t0 <= fst s) data) ->
+  let '(gout, (gT, cur')) := gh_loop res lastT data nextT cur in
+  concat (map snd gout) ++ cur' = cur ++ data /\
+  Forall win_of gout /\
+  (data <> [] \/ nextT <> -1 -> win_of (gT, cur')) /\
+  StronglySorted Z.lt (map fst gout ++ [gT]) /\
+  Forall (fun w => nextT <= w) (map fst gout ++ [gT]).
+Proof.
+  induction data as [|[t v] r IH]; intros nextT cur Hs Hb Hinv; cbn [gh_loop].
+  - cbn [map concat app]. rewrite app_nil_r. split; [reflexivity|]. split; [constructor|].
+    split.
+    { intros [H|H]; [congruence|]. destruct Hinv as [[? _]|[? _]]; [congruence|assumption]. }
+    split; [repeat constructor|]. constructor; [lia|constructor].
+  - cbn [map] in Hs. apply StronglySorted_inv in Hs as [Hs Hle].
+    apply Forall_cons_iff in Hb as [Ht Hb]. cbn [fst] in Ht.
+    destruct (t >? nextT) eqn:E.
+    + apply Z.gtb_lt in E.
+      assert (Hnew : win_of (ew t, [(t, v)])).
+      { split; [discriminate|]. constructor; [reflexivity|constructor]. }
+      assert (Hlt : nextT < Z.min (cw t res) lastT) by (pose proof (cw_ge t (proj1 Ht)); lia).
+      assert (Hew0 : 0 <= Z.min (cw t res) lastT) by (pose proof (cw_ge t (proj1 Ht)); lia).
+      specialize (IH (Z.min (cw t res) lastT) [(t, v)] Hs Hb).
+      assert (Hinv' : Z.min (cw t res) lastT = -1 /\ [(t, v)] = [] \/
+                win_of (Z.min (cw t res) lastT, [(t, v)]) /\
+                exists t0, 0 <= t0 /\ Z.min (cw t res) lastT = ew t0 /\ Forall (fun s => t0 <= fst s) r).
+      { right. split; [exact Hnew|]. exists t. split; [lia|]. split; [reflexivity|].
+        rewrite Forall_map in Hle. exact Hle. }
+      specialize (IH Hinv').
+      destruct (gh_loop res lastT r (Z.min (cw t res) lastT) [(t, v)]) as [gout [gT cur']].
+      destruct IH as (Hcat & Hwins & Hfin & Hsort & Hge).
+      assert (Hfin' : win_of (gT, cur')).
+      { apply Hfin. right. pose proof (cw_ge t (proj1 Ht)). lia. }
+      destruct Hinv as [[-> ->]|[Hw (t0 & Ht0 & Hn & _)]].
+      * change (-1 =? -1) with true. cbv iota. cbn [app].
+        split; [exact Hcat|]. split; [exact Hwins|]. split; [intros _; exact Hfin'|].
+        split; [exact Hsort|].
+        eapply Forall_impl; [|exact Hge]. intros w Hw; cbv beta in Hw; lia.
+      * assert (Hnn : 0 <= nextT).
+        { subst nextT. unfold ew. pose proof (cw_ge t0 Ht0). lia. }
+        replace (nextT =? -1) with false by (symmetry; apply Z.eqb_neq; lia).
+        cbn [app map concat fst snd]. rewrite <- app_assoc.
+        split; [rewrite Hcat; reflexivity|].
+        split; [constructor; assumption|]. split; [intros _; exact Hfin'|].
+        split.
+        -- constructor; [exact Hsort|].
+           eapply Forall_impl; [|exact Hge]. intros w Hw'; cbv beta in Hw'; lia.
+        -- constructor; [lia|].
+           eapply Forall_impl; [|exact Hge]. intros w Hw'; cbv beta in Hw'; lia.
+    + rewrite Z.gtb_ltb in E. apply Z.ltb_ge in E.
+      destruct Hinv as [[-> _]|[Hw (t0 & Ht0 & Hn & Hall)]]; [lia|].
+      apply Forall_cons_iff in Hall as [Ht0t Hall]. cbn [fst] in Ht0t.
+      assert (Hjoin : ew t = nextT).
+      { subst nextT. unfold ew in *. rewrite (cw_same t0 t); [reflexivity|lia|lia|lia]. }
+      specialize (IH nextT (cur ++ [(t, v)]) Hs Hb).
+      assert (Hinv' : nextT = -1 /\ cur ++ [(t, v)] = [] \/
+                win_of (nextT, cur ++ [(t, v)]) /\
+                exists t0, 0 <= t0 /\ nextT = ew t0 /\ Forall (fun s => t0 <= fst s) r).
+      { right. split.
+        - destruct Hw as [_ Hw]. split; [destruct cur; discriminate|].
+          cbn [snd fst] in *. apply Forall_app. split; [exact Hw|]. constructor; [exact Hjoin|constructor].
+        - exists t0. repeat split; assumption. }
+      specialize (IH Hinv').
+      destruct (gh_loop res lastT r nextT (cur ++ [(t, v)])) as [gout [gT cur']].
+      destruct IH as (Hcat & Hwins & Hfin & Hsort & Hge).
+      split; [rewrite Hcat, <- app_assoc; reflexivity|]. split; [exact Hwins|].
+      split; [|split; assumption].
+      intros _. apply Hfin. right. destruct Hw as [Hne Hw]. cbn [snd fst] in *.
+      destruct cur as [|[tc vc] cur0]; [congruence|].
+      apply Forall_cons_iff in Hw as [Hw _]. cbn [fst] in Hw.
+      intro Habs. subst nextT. lia.
 Qed.
 
 End Ghost.
